@@ -887,6 +887,39 @@ func (g *gWorld) lateStep(s gStep, included func(t int) bool) string {
 		return ""
 	}
 	k := len(g.lateIDs)
+	if k < len(lateTypes) && s.E%2 == 0 {
+		// first use of the new type through a generic filter WHILE THE WORLD IS LOCKED: refused (a new
+		// component type cannot be registered then); the same filter object must work afterwards
+		var query func() int
+		switch k {
+		case 0:
+			fl := generic.NewFilter1[GL0]()
+			query = func() int { q := fl.Query(g.Wg); c := q.Count(); q.Close(); return c }
+		case 1:
+			fl := generic.NewFilter1[GL1]()
+			query = func() int { q := fl.Query(g.Wg); c := q.Count(); q.Close(); return c }
+		default:
+			fl := generic.NewFilter1[GL2]()
+			query = func() int { q := fl.Query(g.Wg); c := q.Count(); q.Close(); return c }
+		}
+		q0 := g.Wg.Query(ecs.All())
+		p := core.Call(func() { query() })
+		q0.Close()
+		if p == nil {
+			return "a generic filter over a component type the world has not seen was queried in a locked world without the documented panic"
+		}
+		if g.Wg.IsLocked() {
+			return "the refused query of a generic filter (new component type, locked world) left the world locked"
+		}
+		cnt := -1
+		if p2 := core.Call(func() { cnt = query() }); p2 != nil {
+			return fmt.Sprintf("a generic filter that was refused once (new component type, locked world) panics when queried after the world was unlocked: %v", p2)
+		}
+		if cnt != 0 || g.Wg.IsLocked() {
+			return fmt.Sprintf("a generic filter that was refused once counts %d entities of a type no entity has (world locked: %v)", cnt, g.Wg.IsLocked())
+		}
+		g.label("generic filter over a new type refused under lock, then used")
+	}
 	if k < len(lateTypes) {
 		a, b := ecs.TypeID(g.Wg, lateTypes[k]), ecs.TypeID(g.Wc, lateTypes[k])
 		if a != b {
